@@ -218,6 +218,11 @@ func caseC06(c *Ctx) {
 		}
 		return &DiskPlan{Jail: j, Target: target, FailAt: -1}
 	}
+	// drawn once per case: the enumeration of fault indices below must not consume the stream
+	slowReader, slowAt := massive && !op.FromRoot && c.Chance(1, 5), c.Draw(3)
+	if slowReader {
+		c.st.Count("massive.slow-reader-configured")
+	}
 	exec := func(d *DiskPlan, name string) (*Outcome, []Entry, []Entry) {
 		before := snapshot(d.Jail)
 		env := &Env{Doc: doc, Reader: noReaderFault, Writer: noWriterFault, Cb: noCbFault, Disk: d}
@@ -227,8 +232,15 @@ func caseC06(c *Ctx) {
 		c.st.Count("evaluations")
 		var out *Outcome
 		if massive {
+			if slowReader {
+				// the document arrives slowly (one Read takes 30 s of simulated time)
+				env.Reader.Slow, env.Reader.SlowAt = true, slowAt
+			}
 			env.MaxSteps = 60000
 			out = c.Sim(name, op, env)
+			if out.Probes["reader.slow-read"] > 0 {
+				c.st.Count("fault.fired:slow-reader(30s simulated)")
+			}
 		} else {
 			out = c.Direct(op, env)
 		}
